@@ -35,7 +35,7 @@ PROGRAMS = [
 
 HAND_PATTERNS = [
     "for _item_ in _list_:\n    _acc_ = _acc_ + _item_", "for _item_ in _list_:\n    _acc_ = _item_ + _acc_",
-    "_a_ = 0\nfor ___ in ___:\n    pass", "_x_ = __expr__", "_x_ = _x_ + ___", "print(___)", "print(__e__)", "_f_(___)",
+    "_a_ = 0\nfor ___ in ___:\n    pass", "_x_ = __expr__", "_f_(__e__, __e__)", "__e__ = __e__ + ___", "_x_ = _x_ + ___", "print(___)", "print(__e__)", "_f_(___)",
     "def _f_(___):\n    return ___", "def _f_(_a_, _b_):\n    return _a_ * _b_", "if ___:\n    print(___)", "if __c__:\n    pass\nelse:\n    pass",
     "___ + ___", "_a_ * _b_ + _b_ * _a_", "_a_ * _b_ + _a_ * _b_", "_a_ + _a_", "_a_ + _b_", "___ = ___\n___ = ___",
     "_a_ = ___\n_b_ = ___\n_a_ = _b_", "while ___:\n    _i_ = _i_ + 1", "import ___", "___[___]", "_d_[___] = _d_[___] + 1",
@@ -120,6 +120,10 @@ def check_match(m, pattern, program, earlier=None):
                 if bound is None or bound is not std and sum(1 for i, _ in pairs if id(i) not in carried and type(i.astNode).__name__ == 'Name' and i.astNode.id == text) == 1:
                     bad.append(('expr_placeholder_not_bound_to_its_subtree', '%s bound to %r, paired with line %s' % (
                         text, bound, getattr(sa, 'lineno', '?'))))
+                elif bound is not None and bound is not std and ast.unparse(getattr(bound, 'astNode', bound)) != ast.unparse(sa):
+                    # the same __name__ at several positions: one table entry cannot be the subtree at each of them
+                    bad.append(('repeated_expr_placeholder_stands_at_different_subtrees', '%s bound to %r, but one of its '
+                                'positions holds %r' % (text, ast.unparse(getattr(bound, 'astNode', bound))[:30], ast.unparse(sa)[:30])))
             continue
         if tname in ('Module', 'Pass'):
             continue                     # documented: Module matches a body, pass matches any statement
@@ -278,7 +282,9 @@ FOLLOW_UPS = [("for _item_ in ___:\n    pass", "_item_ + 1"), ("for _item_ in __
               ("_x_ = 0", "_x_ + 1"), ("_x_ = 0", "_x_ = _x_ + ___"), ("_x_ = ___", "print(_x_)"), ("_x_ = ___", "_x_ * 2"),
               ("def _f_(___):\n    pass", "_f_(___)"), ("_a_ = 2", "_a_ * _b_"), ("_a_ = 2", "_b_ * _a_ + ___"),
               ("for _v_ in ___:\n    if __e__ == 1:\n        pass", "_arr_[__e__]"), ("if __e__ == 1:\n    pass", "___[__e__]"),
-              ("_x_ = __e__", "__e__ + 1"), ("_x_ = __e__", "__e__ * 2"), ("print(__e__)", "__e__ + ___"), ("_x_ = __e__", "print(__e__)")]
+              ("_x_ = __e__", "__e__ + 1"), ("_x_ = __e__", "__e__ * 2"), ("print(__e__)", "__e__ + ___"), ("_x_ = __e__", "print(__e__)"),
+              # a leaf pattern has no children whose merging weeds out conflicts with the earlier match
+              ("_x_ = 1", "_x_"), ("_x_ = ___", "_x_"), ("def _f_(___):\n    pass", "_f_")]
 
 
 def run_matcher(pattern, program):
